@@ -115,10 +115,23 @@ def _gen(rng, tier):
         Cm, style = _random_counts(rng, n)
         T = _norm(Cm)
         r = rng.random()
-        if r < 0.07:       # non-stochastic
+        if r < 0.04:       # non-stochastic: one entry off
             i, j = rng.randrange(n), rng.randrange(n)
             T[i][j] += Fraction(rng.choice([1, -1]) * rng.choice([1, 3, 10, 1000]), 10 ** rng.choice([1, 3, 6]))
             style = 'nonstochastic'
+        elif r < 0.09:     # non-stochastic although the row-sum errors cancel over the matrix
+            how = rng.choice(['transpose', 'symmetrised', 'moved'])
+            if how == 'transpose':
+                T = [[T[j][i] for j in range(n)] for i in range(n)]
+            elif how == 'symmetrised':
+                T = [[(T[i][j] + T[j][i]) / 2 for j in range(n)] for i in range(n)]
+            else:
+                i, j = rng.sample(range(n), 2)
+                k = max(range(n), key=lambda c: T[i][c])
+                eps = T[i][k] / rng.choice([2, 10, 1000])
+                T[i][k] -= eps
+                T[j][rng.randrange(n)] += eps
+            style = 'nonstochastic-' + how
         elif r < 0.16:     # isolated-state augmentation of whatever we have
             kind = rng.choice(['absorbing', 'unvisited'])
             for row in T:
@@ -126,6 +139,31 @@ def _gen(rng, tier):
             T.append([Fraction(0)] * n + [Fraction(1 if kind == 'absorbing' else 0)])
             style = 'aug-' + kind + '-' + style
         yield {'k': 'mat', 'M': [[str(x) for x in r] for r in T], 'style': style}
+    for _ in range(G.budget(12) if tier == 'quick' else 300):
+        # (a) nearly symmetric count matrices with equal row totals (relative asymmetry ~1e-6);
+        # (b) a closed class holding a rarely entered, quickly left state (pi between 1e-6 and 1e-4) next to a transient state
+        if rng.random() < 0.5:
+            n = rng.randint(3, 6)
+            c = [rng.randint(1, 9) for _ in range(n)]
+            c = [c[min(k, n - k)] for k in range(n)]
+            Cm = [[c[(i - j) % n] * 10**6 for j in range(n)] for i in range(n)]
+            for _k in range(rng.randint(1, 3)):
+                i = rng.randrange(n)
+                j, k2 = rng.sample(range(n), 2)
+                d = rng.randint(1, 9)
+                Cm[i][j] += d
+                Cm[i][k2] -= d
+            style = 'nearsym'
+        else:
+            big = rng.choice([10**4, 3 * 10**4, 10**5])
+            Cm = [[big, big, rng.randint(1, 3), 0], [big, big, 0, 0], [rng.randint(1, 9), rng.randint(1, 9), 0, 0], [1, 1, 0, rng.randint(1, 4)]]
+            if rng.random() < 0.5:
+                Cm = [r[:3] for r in Cm[:3]]
+            p = list(range(len(Cm)))
+            rng.shuffle(p)
+            Cm = [[Cm[p[i]][p[j]] for j in range(len(Cm))] for i in range(len(Cm))]
+            style = 'rare-state'
+        yield {'k': 'mat', 'M': [[str(x) for x in r] for r in _norm(Cm)], 'style': style}
     for _ in range(6 if tier == 'quick' else 60):
         n, m = rng.choice([(2, 3), (3, 2), (1, 1), (3, 1), (1, 4)])
         yield {'k': 'nonsquare', 'M': [[str(Fraction(1, m))] * m for _ in range(n)], 'style': 'nonsquare'}
